@@ -244,7 +244,15 @@ class MetadorNode(wrapt.ObjectProxy):
             # allow child nodes of local-only nodes to go up to the marked parent
             # (or it is None, if this is the local root)
             if lp := self._self_local_parent:
-                return lp
+                # the parent must carry (at least) all restrictions of this node,
+                # which could have been restricted further than its local parent
+                flags = {f.name: True for f, v in self.acl.items() if v or lp.acl[f]}
+                return MetadorGroup(
+                    self._self_container,
+                    lp.__wrapped__,
+                    local_parent=lp._self_local_parent,
+                    **flags,
+                )
             else:
                 # raise exception (illegal non-local access)
                 self._guard_acl(NodeAcl.local_only, "parent")
